@@ -77,6 +77,40 @@ def ident(values, x):
 # gate.py extensions
 # --------------------------------------------------------------------------
 
+class BCtl(G.Ctl):
+    """Ctl whose threads wait for their FIRST turn without handing the baton back.
+
+    gate.Ctl._body starts with _park(), which resets `turn` when it already names the
+    calling thread.  That is right for a thread that finished a step, but a freshly
+    spawned thread that is slow to start may find that the controller has already
+    granted it its first turn; it then gives the turn back unused and the controller
+    records a second, spurious ('x', 'start') decision.  Traces (and the schedule tree
+    explored from them) became timing dependent.  Here the initial wait only waits."""
+
+    def _body(self, rec, fn):
+        G._tls.rec = rec
+        G._tls.ctl = self
+        try:
+            with self.cv:
+                while self.turn != rec['name']:
+                    if self.aborting:
+                        raise G._Abort()
+                    self.cv.wait(1.0)
+                if self.aborting:
+                    raise G._Abort()
+            fn()
+        except G._Abort:
+            pass
+        except BaseException as e:       # recorded; the driver decides what it means
+            rec['exc'] = e
+        finally:
+            with self.cv:
+                rec['state'] = 'done'
+                if self.turn == rec['name']:
+                    self.turn = None
+                self.cv.notify_all()
+
+
 class BLoop(G.GVLoop):
     """GVLoop whose call_soon_threadsafe, when called by a *managed foreign*
     thread, is a gate (op 'cst')."""
@@ -214,6 +248,7 @@ class Run:
         self.pos = 0
         self.park_vt = 0
         self.park_ticks = 0
+        self.parks = []               # per pull: [virtual ticks spent inside the source, ticker ticks meanwhile]
         self.pulls_on = []
         self.wloop = None
 
@@ -230,6 +265,7 @@ class Run:
         if ctl:
             self.park_vt += ctl.ticks() - v0
             self.park_ticks += self.ticks - t0
+            self.parks.append([ctl.ticks() - v0, self.ticks - t0])
 
     def _deliver(self, k, stop):
         if self.fail is not None and k == self.fail:
@@ -324,7 +360,8 @@ class Run:
             all(any(w and d for w, d in p.shutdown_calls) for p in self.pools)
         self.finished = dict(joined=joined, nworkers=sum(len(p.futs) for p in self.pools),
                              ticks=self.ticks, vt=ctl.ticks(),
-                             park_vt=self.park_vt, park_ticks=self.park_ticks)
+                             park_vt=self.park_vt, park_ticks=self.park_ticks,
+                             nparks=len(self.parks))
 
 
 def _consumer_async(run, ctl, A):
@@ -387,11 +424,21 @@ def run_gated(case, chooser=None):
             import random
             chooser = G.random_chooser(random.Random(case.get('rseed', 0)), stay=case.get('stay', 0.0))
 
+    dues = []                       # per decision: threads whose gate timer (sleep / loop timer) is due
+
     def ch(step, en, c):
         marks.append(len(run.consumed))
+        due = []
+        for n in c.order:
+            rec = c.th[n]
+            if rec['state'] != 'done' and rec['when'] is not None:
+                w = rec['when']()
+                if w is not None and w <= c.vt + G.EPS:
+                    due.append(n)
+        dues.append(due)
         return chooser(step, en, c)
 
-    ctl = G.Ctl(ch, max_steps=MAX_STEPS)
+    ctl = BCtl(ch, max_steps=MAX_STEPS)
     saved = (A.ThreadPoolExecutor, A.queue)
     before = set(threading.enumerate())
     A.ThreadPoolExecutor = lambda *a, **kw: BExecutor(*a, run=run, **kw)
@@ -423,12 +470,12 @@ def run_gated(case, chooser=None):
     names = [t for t in ctl.trace if t[0] != 'adv']
     trace = []
     for i, ((n, op), (en, _)) in enumerate(zip(names, ctl.choices)):
-        trace.append([n, op, marks[i + 1], sorted(en)])
+        trace.append([n, op, marks[i + 1], sorted(en), sorted(dues[i])])
     harness_exc = [repr(ctl.th[n]['exc'])[:200] for n in ctl.order if ctl.th[n]['exc'] is not None]
     fin = run.finished or dict(joined=False, nworkers=sum(len(p.futs) for p in run.pools),
                                ticks=run.ticks, vt=ctl.ticks(), park_vt=run.park_vt,
-                               park_ticks=run.park_ticks)
-    return dict(result=result if not harness_exc else 'error', trace=trace,
+                               park_ticks=run.park_ticks, nparks=len(run.parks))
+    return dict(parks=[list(p) for p in run.parks], result=result if not harness_exc else 'error', trace=trace,
                 consumed=list(run.consumed), outcome=run.outcome, threads_left=left,
                 pulls_on=sorted(set(str(p) for p in run.pulls_on)), stuck=ctl.stuck() if result != 'ok' else [],
                 errors=harness_exc, **fin)
